@@ -434,4 +434,212 @@ theorem chiralFull_fuel (h : TupleHash) (single dbl : Nat → Bool) (mol : MolVi
               exact diffFull_fuel h _ _ _ _ _ _ _ (Nat.lt_succ_self _) hs
             · split <;> simp
 
+/-! ## labels on pairwise inequivalent elements change nothing -/
+
+theorem mem_of_mem_dedupInts : ∀ (l : List Int) (x : Int), x ∈ dedupInts l → x ∈ l := by
+  intro l
+  induction l with
+  | nil => intro x hx; simp [dedupInts] at hx
+  | cons a tl ih =>
+    intro x hx
+    simp only [dedupInts, mem_cons, mem_filter] at hx
+    rcases hx with rfl | ⟨hx, _⟩
+    · exact mem_cons_self
+    · exact mem_cons_of_mem _ (ih x hx)
+
+theorem filter_key_length_one {α : Type} (keyed : List (α × Int)) (k : Int) (hd : (keyed.map (·.2)).Nodup)
+    (hk : k ∈ keyed.map (·.2)) : (keyed.filter fun nv => nv.2 == k).length = 1 := by
+  induction keyed with
+  | nil => simp at hk
+  | cons a tl ih =>
+    simp only [map_cons, nodup_cons] at hd
+    simp only [filter_cons]
+    by_cases hak : a.2 = k
+    · subst hak
+      have : filter (fun nv => nv.2 == a.2) tl = [] := by
+        simp only [filter_eq_nil_iff, beq_iff_eq]
+        intro nv hnv heq
+        exact hd.1 (mem_map.mpr ⟨nv, hnv, heq⟩)
+      simp [this]
+    · have hne : (a.2 == k) = false := by simp [hak]
+      simp only [hne, Bool.false_eq_true, if_false]
+      apply ih hd.2
+      simp only [map_cons, mem_cons] at hk
+      rcases hk with h | h
+      · exact absurd h.symm hak
+      · exact h
+
+/-- pairwise different keys: every group is a singleton -/
+theorem groupsBy_singletons {α : Type} (keyed : List (α × Int)) (hd : (keyed.map (·.2)).Nodup) :
+    ∀ g ∈ groupsBy keyed, g.length = 1 := by
+  intro g hg
+  unfold groupsBy at hg
+  obtain ⟨k, hk, rfl⟩ := mem_map.mp hg
+  rw [length_map]
+  exact filter_key_length_one keyed k hd (mem_of_mem_dedupInts _ _ hk)
+
+theorem processBlock_singleton {α β : Type} (test sign : α → Except PyErr Bool) (atomOf : α → Nat) (setKey : α → β)
+    (w : Weights) (st : BlockState β) (g : List α) (hg : g.length = 1) :
+    processBlock test sign atomOf setKey w st g = .ok st := by
+  unfold processBlock
+  simp [hg]
+
+theorem processBlocks_singletons {α β : Type} (test sign : α → Except PyErr Bool) (atomOf : α → Nat) (setKey : α → β)
+    (w : Weights) : ∀ (gs : List (List α)) (st : BlockState β), (∀ g ∈ gs, g.length = 1) →
+      processBlocks test sign atomOf setKey w st gs = .ok st := by
+  intro gs
+  induction gs with
+  | nil => intro st _; rfl
+  | cons g tl ih =>
+    intro st hg
+    simp only [processBlocks, processBlock_singleton test sign atomOf setKey w st g (hg g mem_cons_self)]
+    exact ih st (fun g' hg' => hg g' (mem_cons_of_mem _ hg'))
+
+theorem groupsOf_eq_groupsBy (w : Weights) (S : List Nat) (keyed : List (Nat × Int))
+    (hk : exMapM (keyOf w) S = .ok keyed) : groupsOf w S = .ok (groupsBy keyed) := by
+  unfold groupsOf groupsBy
+  rw [hk]
+
+/-- one pass over sets whose members have pairwise different keys does nothing -/
+theorem passFull_distinct (T : Tables) (w : Weights) (St : List Nat) (Sc : List (Nat × Nat)) (Sa : List Nat)
+    (keyedT : List (Nat × Int)) (keyedC : List (CTItem × Int)) (keyedA : List (Nat × Int))
+    (hkt : exMapM (keyOf w) St = .ok keyedT) (hdt : (keyedT.map (·.2)).Nodup)
+    (hkc : exMapM (ctKey w) Sc = .ok keyedC) (hdc : (keyedC.map (·.2)).Nodup)
+    (hka : exMapM (keyOf w) Sa = .ok keyedA) (hda : (keyedA.map (·.2)).Nodup) :
+    passFull T w St Sc Sa = .ok ⟨[], [], [], [], false⟩ := by
+  have h1 : pass T.tetra T.labels w St = .ok ⟨[], [], []⟩ := by
+    unfold pass
+    rw [groupsOf_eq_groupsBy w St keyedT hkt]
+    exact processGroups_singletons _ _ _ _ _ (groupsBy_singletons keyedT hdt)
+  have h2 : passCT T w Sc = .ok ⟨[], [], false⟩ := by
+    unfold passCT
+    rw [hkc]
+    exact processBlocks_singletons _ _ _ _ _ _ _ (groupsBy_singletons keyedC hdc)
+  have h3 : passAL T w Sa = .ok ⟨[], [], false⟩ := by
+    unfold passAL
+    rw [hka]
+    exact processBlocks_singletons _ _ _ _ _ _ _ (groupsBy_singletons keyedA hda)
+  unfold passFull
+  rw [h1, h2, h3]
+  rfl
+
+/-- … hence `_chiral_morgan` returns `atoms_order` -/
+theorem chiralFull_distinct (h : TupleHash) (single dbl : Nat → Bool) (mol : MolView) (labels : List (Nat × Bool))
+    (r0 : List (Nat × Nat)) (tet : List Nat) (T : Tables) (terminals : List (Nat × (Nat × Nat)))
+    (pairs : List (Nat × Nat))
+    (keyedT : List (Nat × Int)) (keyedC : List (CTItem × Int)) (keyedA : List (Nat × Int))
+    (hr : atomsOrder h mol = some r0) (ht : tetrahedrons mol = .ok tet)
+    (hT : tablesOf single dbl mol labels = .ok (T, terminals))
+    (hp : exMapM (getKey terminals) (stereoBondAtoms mol.bonds) = .ok pairs)
+    (hkt : exMapM (keyOf (toWeights r0)) ((labels.map (·.1)).filter tet.contains) = .ok keyedT)
+    (hdt : (keyedT.map (·.2)).Nodup)
+    (hkc : exMapM (ctKey (toWeights r0)) (dedupPairs pairs) = .ok keyedC) (hdc : (keyedC.map (·.2)).Nodup)
+    (hka : exMapM (keyOf (toWeights r0)) ((labels.map (·.1)).filter fun n => !tet.contains n) = .ok keyedA)
+    (hda : (keyedA.map (·.2)).Nodup) :
+    chiralFull h single dbl mol labels = .ranks r0 := by
+  unfold chiralFull
+  simp only [hr, ht, hT, hp]
+  split
+  · rfl
+  · simp only [diffFull, passFull_distinct T (toWeights r0) _ _ _ keyedT keyedC keyedA hkt hdt hkc hdc hka hda,
+      isEmpty_nil, if_true]
+    rfl
+
+/-! ## the full model extends the tetrahedral-only model -/
+
+theorem passCT_nil (T : Tables) (w : Weights) : passCT T w [] = .ok ⟨[], [], false⟩ := rfl
+theorem passAL_nil (T : Tables) (w : Weights) : passAL T w [] = .ok ⟨[], [], false⟩ := rfl
+
+def ofDiffResult : DiffResult → R (List (Nat × Nat) × Bool)
+  | .done morgan _ groups => .ok (morgan, !groups.isEmpty)
+  | .err e => .error (.err e)
+  | .fuelOut => .error .fuelOut
+
+theorem diffFull_tetra_only (h : TupleHash) (bonds : IntAdj) (T : Tables) :
+    ∀ (fuel : Nat) (morgan : List (Nat × Nat)) (St : List Nat),
+      diffFull h bonds T fuel morgan St [] [] = ofDiffResult (differentiation h bonds T.tetra T.labels fuel morgan St) := by
+  intro fuel
+  induction fuel with
+  | zero => intro _ _; rfl
+  | succ fuel ih =>
+    intro morgan St
+    simp only [diffFull, differentiation, passFull, passCT_nil, passAL_nil]
+    cases pass T.tetra T.labels (toWeights morgan) St with
+    | error e => rfl
+    | ok pt =>
+      simp only [append_nil, filter_nil]
+      split
+      · simp [ofDiffResult]
+      · cases Morgan.morgan h (applyUpdate (toWeights morgan) pt.update) bonds with
+        | none => rfl
+        | some morgan' => exact ih morgan' _
+
+theorem tablesOf_fields (single dbl : Nat → Bool) (mol : MolView) (labels : List (Nat × Bool)) (T : Tables)
+    (terminals : List (Nat × (Nat × Nat))) (hT : tablesOf single dbl mol labels = .ok (T, terminals)) :
+    stereogenicTetrahedrons single mol = .ok T.tetra ∧ T.labels = labels := by
+  unfold tablesOf at hT
+  split at hT
+  · simp at hT
+  · split at hT
+    · simp at hT
+    · split at hT
+      · simp at hT
+      · rename_i tetra htet
+        simp only [Except.ok.injEq, Prod.mk.injEq] at hT
+        obtain ⟨hT, _⟩ := hT
+        subst hT
+        exact ⟨htet, rfl⟩
+
+/-- wherever the tetrahedral-only model gives an answer, the full model gives the same answer
+    (given that the double-bond tables of the molecule can be computed, which the old model never looks at) -/
+theorem chiralFull_extends (h : TupleHash) (single dbl : Nat → Bool) (mol : MolView) (labels : List (Nat × Bool))
+    (T : Tables) (terminals : List (Nat × (Nat × Nat)))
+    (hT : tablesOf single dbl mol labels = .ok (T, terminals))
+    (hm : chiralMorgan h single mol labels ≠ .notModelled) :
+    chiralFull h single dbl mol labels = chiralMorgan h single mol labels := by
+  obtain ⟨htet, hlab⟩ := tablesOf_fields single dbl mol labels T terminals hT
+  unfold chiralMorgan at hm ⊢
+  unfold chiralFull
+  by_cases hcond : (labels.isEmpty && (stereoBondAtoms mol.bonds).isEmpty) = true
+  · rw [if_pos hcond, if_pos hcond]; cases atomsOrder h mol <;> rfl
+  · rw [if_neg hcond] at hm ⊢
+    rw [if_neg hcond]
+    by_cases hb : (!(stereoBondAtoms mol.bonds).isEmpty) = true
+    · rw [if_pos hb] at hm; exact absurd rfl hm
+    · rw [if_neg hb] at hm ⊢
+      have hb' : stereoBondAtoms mol.bonds = [] := by
+        cases hs : stereoBondAtoms mol.bonds with
+        | nil => rfl
+        | cons a tl => simp [hs] at hb
+      cases hr : atomsOrder h mol with
+      | none => rfl
+      | some r0 =>
+        simp only [hr] at hm ⊢
+        cases ht : tetrahedrons mol with
+        | error e => rfl
+        | ok tet =>
+          simp only [ht] at hm ⊢
+          split at hm
+          · exact absurd rfl hm
+          · rename_i hlen
+            rw [if_neg hlen]
+            have hall : ∀ n ∈ labels.map (·.1), tet.contains n = true := by
+              have : ((labels.map (·.1)).filter tet.contains).length = (labels.map (·.1)).length := by
+                simpa using hlen
+              exact length_filter_eq_length_iff.mp this
+            have hSa : ((labels.map (·.1)).filter fun n => !tet.contains n) = [] := by
+              apply filter_eq_nil_iff.mpr
+              intro n hn
+              have := hall n hn
+              simpa using this
+            simp only [hT, hb', hSa, exMapM, pure, Except.pure, dedupPairs, length_nil, Nat.add_zero, htet,
+              diffFull_tetra_only, hlab]
+            cases differentiation h (intAdjacency mol.bonds) T.tetra labels
+                (((labels.map (·.1)).filter tet.contains).length + 1) r0 ((labels.map (·.1)).filter tet.contains) with
+            | err e => rfl
+            | fuelOut => rfl
+            | done morgan S groups =>
+              simp only [ofDiffResult]
+              cases groups <;> rfl
+
 end ChythonModel.Proofs.C01
